@@ -54,6 +54,7 @@ type FuncSpec struct {
 	Dispatch   []string // interface method spec: the closed list of implementing types
 	MayPanic   bool
 	TypedPtrs  bool // assume distinct instances of one struct type never overlap
+	Reveal     []string // opaque spec functions whose definition this function's proof may use
 	AllocFresh bool // results are freshly allocated
 	Splits     []*Split
 	File       string
@@ -72,6 +73,7 @@ type Macro struct {
 	Params []string
 	Body   Expr
 	Src    string
+	Opaque bool
 }
 
 type File struct {
@@ -193,15 +195,15 @@ func ParseFile(path, defaultPkg string) (*File, error) {
 				return nil, fail("%v", err)
 			}
 			out.GlobalInvs = append(out.GlobalInvs, &Clause{Kind: "globalinv", Label: pkg, Src: rest, E: e, File: path, Line: pendingLine})
-		case "spec":
-			// spec name(a, b) = expr
+		case "spec", "opaque":
+			// spec name(a, b) = expr   (opaque: an uninterpreted function unless the verified function says `reveal name`)
 			eq := strings.Index(rest, "=")
 			lp := strings.Index(rest, "(")
 			rp := strings.Index(rest, ")")
 			if eq < 0 || lp < 0 || rp < lp || eq < rp {
 				return nil, fail("bad spec macro")
 			}
-			m := &Macro{Name: strings.TrimSpace(rest[:lp]), Src: rest}
+			m := &Macro{Name: strings.TrimSpace(rest[:lp]), Src: rest, Opaque: kind == "opaque"}
 			for _, p := range strings.Split(rest[lp+1:rp], ",") {
 				if p = strings.TrimSpace(p); p != "" {
 					m.Params = append(m.Params, p)
@@ -307,6 +309,8 @@ func ParseFile(path, defaultPkg string) (*File, error) {
 				cur.Pure = true
 			case "nosafety":
 				cur.NoSafety = true
+			case "reveal":
+				cur.Reveal = append(cur.Reveal, strings.Fields(strings.ReplaceAll(rest, ",", " "))...)
 			case "typedptrs":
 				cur.TypedPtrs = true
 			case "maypanic":
